@@ -1,9 +1,160 @@
-(* C07 -- automatic field filling (work in progress: first theorem). *)
+(* C07 -- Automatic field filling preserves explicit values and computes derived ones.
+   Model: Model/Autofill.v (the four passes of bitstream/vc2_autofill.py; the version implications are
+   Gen/Version.v, REGENERATED from /repo on every run).  Specifications: Model/AutofillSpec.v.
+   "Omitted fields take their documented defaults" is a table comparison done by the harness. *)
 From Coq Require Import ZArith List Bool.
-From VC2 Require Import Base.PyZ Model.Autofill Proofs.AutofillProofs.
+From VC2 Require Import Base.PyZ Gen.Version Gen.Consts Model.Autofill Model.AutofillSpec Proofs.AutofillProofs.
 Import ListNotations.
 Open Scope Z_scope.
 
-Theorem C07_explicit_npo_preserved_partial : forall d u v, u_npo u = Explicit v ->
-  u_npo (m_unit (po_unit d u)) = Explicit v /\ m_npo_todo (po_unit d u) = false.
-Proof. exact po_unit_explicit_npo. Qed.
+(* Every sequence is treated on its own (numbering, version and offsets restart), whatever the
+   position `start` of the stream in the file. *)
+Theorem C07_per_sequence : forall d start s,
+  autofill_stream d start s =
+  map (fun us => nth 0 (autofill_stream d 0 [us]) []) s.
+Proof.
+  intros d start s. rewrite autofill_stream_per_sequence. apply map_ext. intros us.
+  rewrite autofill_stream_per_sequence. reflexivity.
+Qed.
+
+(* explicit_preserved: whole pipeline, every data unit of every sequence: no Explicit value of an
+   autofillable field changes, every other field is untouched; the only thing that can disappear is an
+   extended_transform_parameters entry (unit_pres / tp_pres) ... *)
+Theorem C07_explicit_preserved : forall d start s,
+  Forall2 (Forall2 unit_pres) s (autofill_stream d start s).
+Proof. exact explicit_preserved. Qed.
+
+(* ... and that happens only to entries describing a symmetric transform (which a stream labelled
+   with a version below 3 codes identically without the entry) *)
+Theorem C07_etp_removed_only_if_symmetric : forall d us,
+  Forall2 (fun u u' => forall tp, get_tp d u = Some tp ->
+             exists tp', get_tp d u' = Some tp' /\ t_wavelet_index tp' = t_wavelet_index tp /\
+                         (t_etp tp' = t_etp tp \/ (t_etp tp' = None /\ symmetric_tp d tp)))
+          us (mv_seq d us).
+Proof. exact etp_removed_only_if_symmetric. Qed.
+
+(* picnum_auto: the number of the unit at any position is its explicit value, else the number of the
+   closest preceding picture/fragment unit OF THE OUTPUT (explicit or automatic; 2^32-1 if none, so the
+   first picture gets 0) plus one modulo 2^32 for pictures and first fragments, and that same number for
+   the other fragments -- exactly the code's behaviour, also when a data fragment carries an explicit number *)
+Theorem C07_picnum_auto : forall d pre u post,
+  let out := pn_seq d 4294967295 (pre ++ u :: post) in
+  let prev := last_number 4294967295 (firstn (length pre) out) in
+  exists u', nth_error out (length pre) = Some u' /\
+    match pn_kind u with
+    | PNOther => u' = u
+    | _ => number_of u' =
+           Some (match pn_field u with
+                 | Explicit v => v
+                 | _ => if pn_increment d u then (prev + 1) mod 4294967296 else prev
+                 end)
+    end.
+Proof. exact seq_picnum_auto. Qed.
+
+(* numbering restarts at 0 in every sequence *)
+Theorem C07_picnum_restarts : forall d s,
+  autofill_picture_number d 0 s = map (pn_seq d 4294967295) s.
+Proof. exact picnum_restarts. Qed.
+
+(* closed form when no number is explicit up to a unit: (pictures started so far - 1) mod 2^32 -- counts
+   0, 1, 2, ... over pictures and first fragments, wraps at 2^32, and is repeated by all fragments of a picture *)
+Theorem C07_picnum_all_auto : forall d pre u post,
+  pn_all_auto (pre ++ [u]) -> is_pn_unit u = true ->
+  exists u', nth_error (pn_seq d 4294967295 (pre ++ u :: post)) (length pre) = Some u' /\
+             number_of u' = Some ((starts d (pre ++ [u]) - 1) mod 4294967296).
+Proof. exact seq_picnum_all_auto. Qed.
+
+(* offsets_true: whole pipeline.  Sequence i = pre ++ u :: post.  Automatic next offset = length of u
+   (= distance to the next parse_info), 0 when u is the last unit of ITS sequence, 13 + payload length for
+   padding/auxiliary data; automatic previous offset = length of the previous unit of the same sequence,
+   0 for the first unit of every sequence; explicit values are kept (expected_npo / expected_ppo). *)
+Theorem C07_offsets_true : forall d start s i us pre u post,
+  nth_error s i = Some us -> us = pre ++ u :: post ->
+  exists us' u', nth_error (autofill_stream d start s) i = Some us' /\
+                 nth_error us' (length pre) = Some u' /\
+                 u_npo u' = expected_npo d u post /\ u_ppo u' = expected_ppo u pre.
+Proof. exact offsets_true. Qed.
+
+(* the positions the serialiser records are the running sums of the unit lengths, so "length of u" is the
+   byte distance between consecutive parse_info headers *)
+Theorem C07_offsets_are_positions : forall ms start pre m post,
+  ms = pre ++ m :: post ->
+  nth_error (fst (seq_offsets start ms)) (length pre) =
+    Some (start + fold_right Z.add 0 (map (fun x => u_len (m_unit x)) pre)).
+Proof. exact seq_offsets_positions. Qed.
+
+(* next offset 0 exactly for the last unit of a sequence *)
+Theorem C07_npo_zero_iff_last : forall d u post,
+  is_autoish (u_npo u) = true -> 0 < u_len u -> (forall n, padaux_payload d u = Some n -> 0 <= n) ->
+  (expected_npo d u post = Explicit 0 <-> post = [] /\ padaux_payload d u = None).
+Proof. exact npo_zero_iff_last. Qed.
+
+(* major_version: what autofill computes is the maximum of MINIMUM_MAJOR_VERSION and the implications of
+   the features listed by af_feats (every parse code; per sequence header: profile, frame-rate /
+   signal-range / colour-spec presets when their custom flag is set -- index 0 included --, and under colour
+   spec 0 the primaries / matrix / transfer-function presets; per picture and first fragment the wavelet
+   pair and horizontal-only depth) *)
+Theorem C07_major_version_is_max : forall d us,
+  seq_version d us = lmax MINIMUM_MAJOR_VERSION (af_feats d us).
+Proof. exact seq_version_is_max. Qed.
+
+(* ... every automatic major_version field of the sequence is set to it ... *)
+Theorem C07_major_version_filled : forall d us,
+  Forall2 (fun u u' => (eff_parse_code d u =? PC_SEQUENCE_HEADER) = true ->
+                       mv_is_auto d (sh_major_version (u_sh u)) = true ->
+                       sh_major_version (u_sh u') = Explicit (seq_version d us)) us (mv_seq d us).
+Proof. exact mv_headers_filled. Qed.
+
+(* major_version_agrees: the validator's version rules (val_version_ok: MajorVersionTooLow, the
+   ...NotSupportedByVersion checks at every log_version_lower_bound site, assert_major_version_is_minimal
+   with the empty-sequence exception; the validator does NOT log presets at index 0 and logs the wavelet
+   bound only when it reads extended_transform_parameters, i.e. when labelled >= 3) accept the sequence
+   labelled v' exactly when v' is the automatic version -- or 3 for a sequence without pictures.
+   etp_codable: a label below 3 cannot carry an asymmetric transform at all. *)
+Theorem C07_major_version_agrees : forall d us v',
+  etp_codable d v' us ->
+  (val_version_ok d v' us <-> v' = seq_version d us \/ (v' = 3 /\ val_npics d us = 0)).
+Proof. exact major_version_agrees. Qed.
+
+(* hence the automatic version is the LEAST version accepted *)
+Theorem C07_major_version_least : forall d us,
+  let v := seq_version d us in
+  etp_codable d v us /\ val_version_ok d v us /\
+  forall v', etp_codable d v' us -> val_version_ok d v' us -> v <= v'.
+Proof. exact major_version_least. Qed.
+
+(* ---- non-vacuity -------------------------------------------------------------------------------- *)
+Definition ex_d : defaults :=
+  mk_defaults 16 None 3 (false, 3) (false, 1) (false, 3) (false, 0) (false, 0) (false, 0) 0 4 false 4 false 0 0 0.
+Definition ex_p : preset := mk_preset None None.
+Definition ex_h : seqhdr := mk_seqhdr Omitted (Some 0) ex_p ex_p ex_p ex_p ex_p ex_p.
+Definition ex_t : tparams := mk_tp None None.
+Definition ex_u (pc : Z) (n : afield) (len : Z) : dunit :=
+  mk_dunit (Some pc) Auto Omitted ex_h n ex_t n None ex_t None (Some 5) len.
+(* header, picture (explicit 2^32-1), padding of 5 bytes, picture (auto -> wraps to 0), end of sequence;
+   a second sequence restarts *)
+Example C07_example :
+  map (map (fun u => (u_npo u, u_ppo u, sh_major_version (u_sh u), u_pic_number u)))
+      (autofill_stream ex_d 0
+         [[ex_u 0 Omitted 30; ex_u 200 (Explicit 4294967295) 40; ex_u 48 Auto 18; ex_u 200 Auto 41; ex_u 16 Auto 13];
+          [ex_u 0 Omitted 30; ex_u 204 Auto 20; ex_u 16 Auto 13]]) =
+  [[(Explicit 30, Explicit 0, Explicit 1, Omitted); (Explicit 40, Explicit 30, Omitted, Explicit 4294967295);
+    (Explicit 18, Explicit 40, Omitted, Auto); (Explicit 41, Explicit 18, Omitted, Explicit 0);
+    (Explicit 0, Explicit 41, Omitted, Auto)];
+   [(Explicit 30, Explicit 0, Explicit 3, Omitted); (Explicit 20, Explicit 30, Omitted, Auto);
+    (Explicit 0, Explicit 20, Omitted, Auto)]].
+Proof. vm_compute. reflexivity. Qed.
+
+(* the validator accepts version 3 for a picture-less sequence although autofill says 1 *)
+Example C07_example_exception :
+  seq_version ex_d [ex_u 0 Omitted 30; ex_u 16 Auto 13] = 1 /\
+  val_version_ok ex_d 3 [ex_u 0 Omitted 30; ex_u 16 Auto 13] /\
+  ~ val_version_ok ex_d 2 [ex_u 0 Omitted 30; ex_u 16 Auto 13].
+Proof.
+  split; [reflexivity|]. split.
+  - apply (proj2 (C07_major_version_agrees ex_d _ 3 (or_introl (Z.le_refl 3)))). right. split; reflexivity.
+  - assert (HC : etp_codable ex_d 2 [ex_u 0 Omitted 30; ex_u 16 Auto 13]).
+    { right. intros u Hu Ht. cbn [In] in Hu. destruct Hu as [<-|[<-|[]]]; vm_compute in Ht; discriminate. }
+    intros H. apply (proj1 (C07_major_version_agrees ex_d _ 2 HC)) in H.
+    destruct H as [H|[H _]]; vm_compute in H; discriminate.
+Qed.
